@@ -1064,6 +1064,8 @@ pub const POISONS: &[Poison] = &[
     Poison { id: "tuple_field", poison: "#[typeshare]\npub struct Pz { pub ok: u32, pub pair: (u32, String) }\n", skipped: Some("#[typeshare]\npub struct Pz { pub ok: u32, #[serde(skip)] pub pair: (u32, String) }\n") },
     Poison { id: "tuple_in_vec", poison: "#[typeshare]\npub struct Pz { pub ok: u32, pub pairs: Vec<(u32, String)> }\n", skipped: Some("#[typeshare]\npub struct Pz { pub ok: u32, #[serde(skip)] pub pairs: Vec<(u32, String)> }\n") },
     Poison { id: "tuple_struct_2", poison: "#[typeshare]\npub struct Pz(u32, String);\n", skipped: None },
+    Poison { id: "tuple_struct_2_first_skipped", poison: "#[typeshare]\npub struct Pz(#[serde(skip)] pub String, pub u64);\n", skipped: None },
+    Poison { id: "tuple_struct_2_second_skipped", poison: "#[typeshare]\npub struct Pz(pub String, #[serde(skip)] pub String);\n", skipped: None },
     Poison { id: "tuple_variant_2", poison: "#[typeshare]\n#[serde(tag = \"type\", content = \"content\")]\npub enum Pz { Ok(u32), Two(u32, String) }\n", skipped: Some("#[typeshare]\n#[serde(tag = \"type\", content = \"content\")]\npub enum Pz { Ok(u32), #[serde(skip)] Two(u32, String) }\n") },
     Poison { id: "flatten", poison: "#[typeshare]\npub struct Pz { pub ok: u32, #[serde(flatten)] pub rest: HashMap<String, String> }\n", skipped: Some("#[typeshare]\npub struct Pz { pub ok: u32, #[serde(skip)] #[serde(flatten)] pub rest: HashMap<String, String> }\n") },
     Poison { id: "enum_without_tag_content", poison: "#[typeshare]\npub enum Pz { Ok, Data(String) }\n", skipped: Some("#[typeshare]\npub enum Pz { Ok, #[serde(skip)] Data(String) }\n") },
